@@ -87,7 +87,7 @@ theorem aux_innerCmp_spec (R : α → List Row) (head : Row → Key) (ccmp : α 
     (ha : ∀ k c, a.lookup k = some c → (∀ r ∈ R c, head r = k) ∧ R c ≠ [])
     (hb : ∀ k c, b.lookup k = some c → (∀ r ∈ R c, head r = k) ∧ R c ≠ [])
     (hc : ∀ k x y, a.lookup k = some x → b.lookup k = some y → ccmp x y = cmpSpec (R x) (R y)) :
-    innerCmp ccmp a b = cmpSpec (lrows R a) (lrows R b) := by
+    innerCmpCore ccmp a b = cmpSpec (lrows R a) (lrows R b) := by
   -- rows of a level, by key
   have memA : ∀ r, r ∈ lrows R a ↔ ∃ k c, a.lookup k = some c ∧ r ∈ R c := fun r => aux_mem_lrows_lookup nda
   have memB : ∀ r, r ∈ lrows R b ↔ ∃ k c, b.lookup k = some c ∧ r ∈ R c := fun r => aux_mem_lrows_lookup ndb
@@ -191,7 +191,7 @@ theorem aux_innerCmp_spec (R : α → List Row) (head : Row → Key) (ccmp : α 
       | some o => cases o <;> simp_all
   rw [← L1] at flagsLE
   rw [← L2] at flagsGE
-  unfold innerCmp
+  unfold innerCmpCore
   by_cases hemp : (a.isEmpty && b.isEmpty) = true
   · have ea : a = [] := by simpa using (Bool.and_eq_true_iff.mp hemp).1
     have eb : b = [] := by simpa using (Bool.and_eq_true_iff.mp hemp).2
@@ -227,17 +227,27 @@ theorem aux_innerCmp_spec (R : α → List Row) (head : Row → Key) (ccmp : α 
 
 end Level
 
-theorem aux_gcmp_spec (n d : Nat) (a b : Ght n) (ga : Good n d a) (gb : Good n d b) :
+theorem aux_gcmp_spec (n d : Nat) (a b : Ght n) (wa : Wf .set n d a) (wb : Wf .set n d b) :
     gcmp n a b = cmpSpec (grows n a) (grows n b) := by
   induction n generalizing d with
   | zero =>
     simp only [gcmp, grows]
-    exact aux_leaf_cmp _ _ (ga.1 rfl) (gb.1 rfl)
+    exact aux_leaf_cmp _ _ (wa rfl) (wb rfl)
   | succ n ih =>
-    simp only [gcmp, aux_grows_succ]
-    exact aux_innerCmp_spec (grows n) (headAt d) (gcmp n) a.kids b.kids ga.1.1 gb.1.1
-      (fun k c hl => (aux_good_child ga hl).2)
-      (fun k c hl => (aux_good_child gb hl).2)
-      (fun k x y hx hy => ih (d + 1) x y (aux_good_child ga hx).1 (aux_good_child gb hy).1)
+    simp only [gcmp, aux_grows_succ, innerCmp]
+    rw [aux_innerCmp_spec (grows n) (headAt d) (gcmp n) _ _
+      (aux_liveKids_nodup _ _ wa.1) (aux_liveKids_nodup _ _ wb.1)
+      (fun k c hl => by
+        obtain ⟨hm, hne⟩ := aux_liveKids_lookup (grows n) _ (aux_hasRows n) _ hl
+        exact ⟨(wa.2 _ hm).2, hne⟩)
+      (fun k c hl => by
+        obtain ⟨hm, hne⟩ := aux_liveKids_lookup (grows n) _ (aux_hasRows n) _ hl
+        exact ⟨(wb.2 _ hm).2, hne⟩)
+      (fun k x y hx hy => by
+        obtain ⟨hmx, _⟩ := aux_liveKids_lookup (grows n) _ (aux_hasRows n) _ hx
+        obtain ⟨hmy, _⟩ := aux_liveKids_lookup (grows n) _ (aux_hasRows n) _ hy
+        exact ih (d + 1) x y (wa.2 _ hmx).1 (wb.2 _ hmy).1)]
+    unfold cmpSpec
+    simp only [aux_mem_lrows_liveKids (grows n) _ (aux_hasRows n)]
 
 end HvGht
